@@ -2,6 +2,7 @@ package sched
 
 import (
 	"fmt"
+	"strings"
 )
 
 // replayChooser replays a prefix of choices, then always takes choice 0 (the
@@ -77,6 +78,7 @@ type Explorer struct {
 	Stopped    bool
 	Errors     []string
 	MaxPoints  int
+	Retries    int
 	depth1     int
 	depth2     int
 }
@@ -121,6 +123,13 @@ func (e *Explorer) explore(prefix []int, depth int) {
 		}
 	}
 	x := RunOnce(e.Body, prefix, e.Fine)
+	for retry := 0; retry < 3 && x.Stuck != "" && strings.Contains(x.Stuck, "replay divergence"); retry++ {
+		// Residual nondeterminism inside a thread (Go map iteration order
+		// deciding which lock is held at a point) can make a recorded prefix
+		// momentarily infeasible; the prefix itself was observed, so retry.
+		e.Retries++
+		x = RunOnce(e.Body, prefix, e.Fine)
+	}
 	if x.Stuck != "" {
 		e.Errors = append(e.Errors, fmt.Sprintf("prefix %v: %s", prefix, x.Stuck))
 		return
